@@ -60,7 +60,7 @@ def run(chk):
         rs = T.load_steps(out)
         S.validate_executions(chk, "C08", work, "raftkvs", text, rs, consts(n, clients, maxfail > 0, maxfail, 3), INV,
                               ["LeaderAppendOnly"], what="raftkvs n=%d clients=%d maxfail=%d" % (n, clients, maxfail),
-                              chunks=min(runs, 6), timeout=2400)
+                              chunks=min(runs, 6), timeout=2400, conform=False)
         if rs:
             chk.sample({"kind": "execution under Run (FIFO network)", "n": n, "policy": rs[0]["meta"].get("policy"),
                         "seed": rs[0]["meta"].get("seed"), "steps": len(rs[0]["states"]), "schedule_prefix": S.schedule_of(rs[0], 12)})
@@ -79,7 +79,7 @@ def run(chk):
         chk.notes["guided_behaviours_followed"] = "%d/%d" % (followed, total)
         rs = T.load_steps(gout)
         S.validate_executions(chk, "C08", work, "raftkvs", text, rs, consts(3, 1, True, 1, 3), INV, ["LeaderAppendOnly"],
-                              what="raftkvs guided n=3", chunks=4, timeout=2400)
+                              what="raftkvs guided n=3", chunks=4, timeout=2400, conform=False)
     chk.assumptions += ["TLC/SANY", "per-link FIFO delivery (the property's quantifier): enforced by RaftFIFO.tla at design level and by the executor's network",
                         "spec-state env resources (harness/internal/sysdefs/raftkvs.go) implement the ten mapping macros of raftkvs.tla; every state they produce is validated against raftkvs.tla",
                         "MaxTerm/MaxCommitIndex are model-checking constraints only; executions are not bounded by them"]
